@@ -99,7 +99,7 @@ def run_bounded(inst, tier, seed, replay_dir):
                 fn = None
                 if replay_dir:
                     os.makedirs(replay_dir, exist_ok=True)
-                    fn = os.path.join(replay_dir, I._safe('bounded__%s__%s__%s.json' % (inst.func.split(':')[-1], inst.name, name)))
+                    fn = os.path.join(replay_dir, I._safe('bounded__%s__%s__%s' % (inst.func.split(':')[-1], inst.name, name)) + '.json')
                     with open(fn, 'w') as fh:
                         json.dump(payload, fh, indent=1)
                 rep['violations'].append({'obligation': name, 'kind': 'bounded', 'confirmed': True, 'replay': fn,
@@ -160,8 +160,7 @@ def main(argv=None):
     replay_dir = os.path.join(ROOT, 'replays', prop)
     if os.path.isdir(replay_dir):
         for f in os.listdir(replay_dir):
-            if f.endswith('.json'):
-                os.unlink(os.path.join(replay_dir, f))
+            os.unlink(os.path.join(replay_dir, f))
     jobs = []
     for idx, inst in enumerate(insts):
         if args.only and args.only not in inst.key:
